@@ -71,3 +71,9 @@ Proof. exact (complement_complete W F K Fm Fmt Km Kmt M). Qed.
     from all source files on every run), so the log level cannot change a result. *)
 Theorem c11_log_level_in_force : log_level_guards_only_prints = true.
 Proof. reflexivity. Qed.
+
+(** Hand-modelled code this property's model and correspondences were written against is unchanged (the reference (projector-based, stable) variants):
+    whole-function match against the recorded source, regenerated on every run. *)
+From SymfcG Require Import ShapesRef.
+Theorem c11_recorded_sources_in_force : ShapesRef_as_recorded = true.
+Proof. repeat split; reflexivity. Qed.
